@@ -293,6 +293,8 @@ class Structure(list):
         getParser = diffpy.structure.parsers.getParser
         p = getParser(format)
         new_structure = p.parseFile(filename)
+        if new_structure is None:
+            new_structure = Structure()
         # reinitialize data after successful parsing
         # avoid calling __init__ from a derived class
         for name in ("title", "pdffit", "xcfg"):
@@ -330,6 +332,8 @@ class Structure(list):
 
         p = getParser(format)
         new_structure = p.parse(s)
+        if new_structure is None:
+            new_structure = Structure()
         # reinitialize data after successful parsing
         # avoid calling __init__ from a derived class
         for name in ("title", "pdffit", "xcfg"):
